@@ -248,8 +248,16 @@ pub fn execute(prop: &str, sc: &TlsScript, opts: &ExecOpts) -> Outcome {
             match &r.value {
                 None => out.violate(prop, "scenario-timeout", &sig, "the TLS scenario did not finish within 600 virtual seconds".into()),
                 Some(Err(e)) => {
-                    out.inconclusive = true;
-                    out.log.push(format!("setup error: {e:#}"));
+                    let text = format!("{e:#}");
+                    out.log.push(format!("setup error: {text}"));
+                    // before any datagram has travelled the scenario only runs the bundled
+                    // generator and reads what it wrote: a missing or unreadable file there is
+                    // the generator's set being incomplete, not a fault of the network
+                    if r.net.delivered == 0 && (text.contains("No such file") || text.contains("os error 2") || text.contains("failed to read")) {
+                        out.violate(prop, "generated-set-incomplete", &sig, format!("a file the bundled generator is supposed to write could not be read back: {text}"));
+                    } else {
+                        out.inconclusive = true;
+                    }
                 }
                 Some(Ok(rep)) if rep.server_start_err.is_some() => {
                     // every file the server was given came out of the bundled generator
